@@ -696,8 +696,9 @@ static void check_history(const hist_t *h)
                 char clause[96]; int o2 = model_find_secret(e->srvSecd), any = -1;
                 for (int j = 0; j < nc && any < 0; j++) any = model_find(-1, cand[j].b, cand[j].n);
                 snprintf(clause, sizeof clause, "resumed-with-%s", e->label && e->forged ? e->label : nc ? "unknown-credential" : "no-credential");
+                char own[24] = ""; if (o2 >= 0) snprintf(own, sizeof own, "%d", CR[o2].owner);
                 violate(e, clause, bestKind, "server resumed although no credential it issued was presented byte-exactly%s; the secret it resumed with %s%s",
-                        any >= 0 ? " (the bytes are a credential of another mechanism/version)" : "", o2 >= 0 ? "is that of the session issued to client " : "matches no issued session", o2 >= 0 ? (char[12]) { (char) ('0' + CR[o2].owner / 10 % 10), (char) ('0' + CR[o2].owner % 10), 0 } : "");
+                        any >= 0 ? " (the bytes are a credential of another mechanism/version)" : "", o2 >= 0 ? "is that of the session issued to client " : "matches no issued session", own);
             }
             if (ok && e->complete && e->negVer != MX_TLS13 && e->srvMsd != CR[best].secd) violate(e, "wrong-secret", CR[best].kind, "resumed connection completed with a master secret different from the original session's");
         }
